@@ -5,6 +5,8 @@ references, rm by name / by instance, disconnect, rename, tag edits) the object 
 public attributes:
 
   * ownership      every non-header line of g.lines has .gfa is g and is_connected()
+  * listed once    no line object occurs twice in g.lines (a line registered under two keys is found under
+                   something that is not its current identifier)
   * closure        every value of a reference field (from_segment, to_segment, sid1, sid2, sid, items,
                    segment_names, path.links) is a Line that is one of g.lines (by identity), reports g as
                    owner, and - when it carries an identifier - is what g.line(identifier) returns;
@@ -14,15 +16,25 @@ public attributes:
   * no zombies     follows from closure (a disconnected line has .gfa None and is not in g.lines)
   * reparse        when g holds no virtual line, gfapy.Gfa(str(g)) does not raise
 
+Generated besides the plain add/rm/rename histories (all through _hist.py profile options):
+  * identifier drops ("dropid"): the ID tag of a connected L/C line is removed in each of its three spellings
+    (line.delete("ID"), line.set("ID", None), line.set("name", None) = `line.name = None`), the name of an
+    E/G/O/U line is set to '*' (also through ordinary renames, rename_star); the history goes on afterwards, so
+    the now anonymous line is later removed directly or by the cascade of one of its segments
+  * twins ("copy"/"rm_copy"): a second line with exactly the text of a stored line without identifier (E/G/O/U
+    '*', F, C without ID), and removal by instance of one of several lines with the same text (the back-reference
+    collections must lose that very object, not an equal one)
+
 Failures found after a step that *raised* are reported under the prefix "after-failed-step-" (the property
 speaks of sequences of additions/removals/..., a rejected call is C08's subject) and end the history, so a
 failure without that prefix is never the echo of an earlier rejected call.
 
 Signatures (one report per history: the most basic broken clause, see PRIORITY):
-    <clause>-after-<op>                 clause in {walk-raises, owner-wrong, reference-not-a-line, reaches-disconnected,
+    <clause>-after-<op>                 clause in {walk-raises, owner-wrong, listed-twice, reference-not-a-line, reaches-disconnected,
                                         reaches-line-not-in-gfa, not-found-under-identifier, reference-field-raises,
                                         reference-not-mirrored-to-<RT>, backreference-without-reference-to-<RT>,
-                                        reparse-fails}; op in {add-<RT>, rm, rmline-<RT>, disconnect, rename, settag, deltag}
+                                        reparse-fails}; op in {add-<RT>, rm, rmline-<RT>, disconnect, rename, settag, deltag,
+                                        setfield (only `name` := None)}
     after-failed-step-<clause>-after-<op>   the same, found right after a call that raised
     foreign-exception                   a call raised something that is not a gfapy.Error (graph still closed)
 On the pinned tree: reaches-disconnected-after-rm/rmline/disconnect = DESIGN 7 #1; reference-not-mirrored-to-G = #2;
@@ -51,7 +63,9 @@ ID = "C02"
 RULE = ("exhaustive: every history of length <= 4 (quick) / <= 5 (thorough) over a 7-step alphabet per version (2 segments, 2 links, a path, rm, rename / segment, edge, gap, O, U, rm segment, rm edge); random: histories (4-25 steps quick, up to 60 thorough) over segments A-D, edges e1-e3, gaps g1-g2, groups "
         "p/o/u1-2: every GFA1/GFA2 record type, forward references (25%), self-links, hairpins, parallel links, "
         "several dependants per collection, nested and multi-line groups, rm by name/instance, disconnect, rename, "
-        "tag edits, 12% calls meant to fail; 12% of histories start with the version unknown. Non-trivial: at least "
+        "tag edits, identifiers dropped from connected lines (ID tag of L/C deleted in three spellings, E/G/O/U renamed to "
+        "'*'), repeated lines without identifier and removal of one of them by instance, 12% calls meant to fail; "
+        "12% of histories start with the version unknown. Non-trivial: at least "
         "one removal/disconnect/rename in a history with at least two additions. Distinct by case hash.")
 
 PROF = H.profile(p_fail=0.12, copy=0.06, rm_copy=0.3, rename_star=0.1, ops={"dropid": 5})
